@@ -122,6 +122,18 @@ def check(prop, w, tier, t0):
     v, st, tr = validate(w, "V", events)
     states += st
     trans += tr
+    nloads = 0
+    if prop == "C08":
+        # joins / preloads / association lookups of soft-delete models: Assoc.tla reference join
+        from . import assocfam
+        loads = assocfam.run_loads(w, vh, tier, "soft", sd)
+        lv, st2, tr2 = assocfam.validate(w, "VL", loads)
+        states += st2
+        trans += tr2
+        nloads = len(loads)
+        for b in lv["bad"]:
+            e = loads[b["i"] - 1]
+            verdict.bad({"assoc": assocfam.case_of(e)}, None, assocfam.describe(e, b))
     nq = sum(1 for e in events if e["ev"] == "Q")
     distinct = set()
     nontrivial = set()
@@ -139,6 +151,10 @@ def check(prop, w, tier, t0):
             verdict.bad(case_of(events, b["i"]), sig, describe(events[b["i"] - 1]))
 
     def reproduce(case):
+        if "assoc" in case:
+            from . import assocfam
+            vv, _ = assocfam.rerun(w, vh, case["assoc"], "repro-" + lib.case_hash(case))
+            return len(vv["bad"]) > 0
         vv, rows = run_one(w, vh, case, "repro-" + lib.case_hash(case))
         return any(failing(prop, b)[0] for b in vv["bad"])
     rc = verdict.finish(reproduce)
@@ -148,7 +164,7 @@ def check(prop, w, tier, t0):
            "evaluations": nq, "distinct_nontrivial": len(nontrivial),
            "rule": "each evaluation = one finisher executed on one chain on SQLite and judged by Trace_Cond; chains: %d enumerated by TLC (CondGen %s, every unit shape over atoms A,B,C on the 27-row grid with soft-deleted twins) + %d seeded random chains (trees to depth 3, every form, random tables with NULLs); distinct = hash of (chain rendering, finisher, model); non-trivial = at least two units, or a grouped / composite unit" % (nchains, spaces, nrand),
            "exhaustive": True, "chains_enumerated": nchains, "random_chains": nrand,
-           "known_finding_cases": verdict.known_hits, "events_total": len(events)}
+           "known_finding_cases": verdict.known_hits, "events_total": len(events), "soft_delete_eager_loads": nloads}
     lib.write_evidence(prop, tier, "model_checking", cov, time.time() - t0, len(verdict.violations),
                        ["renderer from abstract units to gorm call arguments (harness/cond/ast.go) is trusted",
                         "SQLite executes the SQL text gorm produced", "LIKE restricted to the vocabulary of spec/Values.tla",
@@ -159,6 +175,15 @@ def check(prop, w, tier, t0):
 def replay(prop, w, path):
     vh = lib.build_harness()
     case = json.load(open(path))
+    if "assoc" in case:
+        from . import assocfam
+        vv, rows = assocfam.rerun(w, vh, case["assoc"], "replay")
+        if vv["bad"]:
+            print("VIOLATION property=%s replay=%s" % (prop, path))
+            print("  " + assocfam.describe(rows[vv["bad"][0]["i"] - 1], vv["bad"][0]))
+            return 1
+        print("no violation")
+        return 0
     v, rows = run_one(w, vh, case, "replay")
     known = lib.known_findings(prop)
     for b in v["bad"]:
